@@ -9,6 +9,7 @@ CONSTANTS
   MAXCELLS = 4
   FIXED_CREATE = TRUE
   COMMIT_FIRST = TRUE
+  MAY_MOVE = TRUE
   CRASHES = 1
 INVARIANT TypeOK
 INVARIANT DurableInv
